@@ -15,7 +15,7 @@ text outside the modelled grammar (decided here, before squid runs, by the same 
   dnsfail  503 with X-Squid-Error: ERR_DNS_FAIL and nothing arrived
   odd:...  anything else (status, X-Squid-Error, arrivals)
 """
-import os, re, socket, struct, threading, time, fcntl, select, sys
+import os, re, socket, struct, threading, time, fcntl, select, sys, subprocess
 
 VERIF = os.path.dirname(os.path.dirname(os.path.abspath(__file__)))
 if VERIF not in sys.path:
@@ -401,13 +401,62 @@ def classify_reject(text):
     return "other:" + re.sub(r"\s+", "_", m.group(0))[:80] if m else "other"
 
 
+# ------------------------------------------------------------------------------------------------ orphan protection
+
+WATCH_SCRIPT = r"""
+import os, sys, select, signal
+pids = []
+buf = b""
+while True:
+    r, _, _ = select.select([0], [], [], 1.0)
+    if r:
+        d = os.read(0, 4096)
+        if not d:
+            break
+        buf += d
+        while b"\n" in buf:
+            l, buf = buf.split(b"\n", 1)
+            try:
+                pids.append(int(l))
+            except ValueError:
+                pass
+for p in pids:
+    try:
+        os.killpg(p, signal.SIGKILL)
+    except OSError:
+        pass
+"""
+
+
+class Watchdog:
+    """one helper process per harness: when the harness goes away (its end of the pipe closes) every registered squid process group
+    is killed (squid drops privileges, which clears PR_SET_PDEATHSIG, so a per-child death signal would not do)"""
+
+    def __init__(self):
+        self.proc = subprocess.Popen(["/usr/bin/python3", "-S", "-E", "-c", WATCH_SCRIPT], stdin=subprocess.PIPE, start_new_session=True)
+
+    def add(self, pid):
+        try:
+            self.proc.stdin.write(b"%d\n" % pid)
+            self.proc.stdin.flush()
+        except OSError:
+            pass
+
+    def close(self):
+        try:
+            self.proc.stdin.close()
+            self.proc.wait(timeout=10)
+        except Exception:
+            pass
+
+
 # ------------------------------------------------------------------------------------------------ the harness
 
 ORIGIN_BODY = b"origin-body-c45"
 
 
 class Harness:
-    def __init__(self, stage, batch=6, workers=6):
+    def __init__(self, stage, batch=8, workers=8):
         self.stage = stage
         self.batch = batch
         self.workers = workers
@@ -422,6 +471,7 @@ class Harness:
                 if time.time() - t0 > 3600:
                     raise RuntimeError("another C45 run holds %s for more than an hour" % LOCK_PATH)
                 time.sleep(1.0)
+        self.watch = Watchdog()
         self.dns = DnsStub()
         self.origin = MultiOrigin()
         self.n = 0
@@ -511,23 +561,54 @@ class Harness:
                 return {"out": "bad-universe"}
         if conf_scope(conf) != "ok":
             return {"out": "unmodelled"}
-        last = None
-        for attempt in range(4):
-            sq = rig.Squid(self.stage, conf=self.base, access="\n".join(conf) + "\n")
+        sq = rig.Squid(self.stage, conf=self.base, access="\n".join(conf) + "\n")
+        self._spawn(sq)
+        return {"sq": sq, "reqs": reqs, "conf": conf, "tries": 1}
+
+    def _spawn(self, sq):
+        """the first half of rig.Squid.start(): exec only (main thread); readiness is awaited later so that a batch starts in parallel.
+        No preexec_fn (python then forks the whole interpreter: seconds per start on a loaded sandbox); the session is created by
+        start_new_session and orphan protection is the harness-wide watchdog process."""
+        sq._rm_shm()
+        args = [sq.binary(), "-N", "-n", sq.name, "-f", sq.conf_path, "-d1"]
+        sq.errlog = open(os.path.join(sq.dir, "stderr.log"), "ab")
+        sq.proc = subprocess.Popen(args, env=sq.env, stdout=sq.errlog, stderr=sq.errlog, start_new_session=True)
+        self.watch.add(sq.proc.pid)
+
+    def await_ready(self, job, wait=120.0):
+        """main thread: second half of start(); a squid that exits is either a refused configuration or a start problem (retried)"""
+        if "out" in job:
+            return
+        while True:
+            sq = job["sq"]
+            t0 = time.time()
+            ok = False
+            while time.time() - t0 < wait * rig.VERIF_SLOW:
+                if "Accepting HTTP Socket connections" in sq.cache_log():
+                    ok = True
+                    break
+                if sq.proc.poll() is not None:
+                    break
+                time.sleep(0.03)
+            if ok:
+                return
+            text = sq.cache_log()
             try:
-                sq.start(wait=90)
-                return {"sq": sq, "reqs": reqs}
-            except RuntimeError as e:
-                text = sq.cache_log()
-                try:
-                    text += open(os.path.join(sq.dir, "stderr.log"), errors="replace").read()
-                except OSError:
-                    pass
-                sq.stop(kill=True)
-                if re.search(r"Bungled|FATAL: (ERROR: )?Invalid ACL", text) and not re.search(r"commBind|Address already in use", text):
-                    return {"out": "reject:" + classify_reject(text)}
-                last = str(e)[-300:]
-        return {"out": "abort:squid-start " + re.sub(r"\s+", "_", last or "")[:160]}
+                text += open(os.path.join(sq.dir, "stderr.log"), errors="replace").read()
+            except OSError:
+                pass
+            sq.stop(kill=True)
+            del job["sq"]
+            if re.search(r"Bungled|FATAL: (ERROR: )?Invalid ACL", text) and not re.search(r"commBind|Address already in use", text):
+                job["out"] = "reject:" + classify_reject(text)
+                return
+            if job["tries"] >= 4:
+                job["out"] = "abort:squid-start " + re.sub(r"\s+", "_", text[-200:])[:160]
+                return
+            job["tries"] += 1
+            sq = rig.Squid(self.stage, conf=self.base, access="\n".join(job["conf"]) + "\n")
+            self._spawn(sq)
+            job["sq"] = sq
 
     def execute(self, job):
         if "out" in job:
@@ -557,6 +638,8 @@ class Harness:
         res = []
         for i in range(0, len(lines), self.batch):
             jobs = [self.prepare(l) for l in lines[i:i + self.batch]]
+            for j in jobs:
+                self.await_ready(j)
             with ThreadPoolExecutor(max_workers=self.workers) as ex:
                 outs = list(ex.map(self.execute, jobs))
             for j in jobs:
@@ -569,6 +652,7 @@ class Harness:
         try:
             self.origin.close()
             self.dns.close()
+            self.watch.close()
         finally:
             try:
                 fcntl.flock(self.lockf, fcntl.LOCK_UN)
